@@ -97,7 +97,7 @@ def bits_after_dynamic(ty, cfg):
 
 def small_unit_bits(ty):
     """bit-fields on a storage type whose size is smaller than its alignment (int24/uint24): finding F23 in aligned mode"""
-    return has(ty, lambda t, d, u: t[0] == "struct" and any(f["bits"] and base_of(f) in ("int24", "uint24") for f in t[1]))
+    return has(ty, lambda t, d, u: t[0] == "struct" and any(f["bits"] and base_of(f) in ("int24", "uint24", "int48", "uint48") for f in t[1]))
 
 
 def union_dump_incomplete(ty, cfg):
